@@ -21,7 +21,7 @@ from ..fsx import Crash, FsTap
 from ..tlc import require_coverage, require_ok, run_tlc
 from ..tlaval import parse_value
 
-RENAMES = "CONFIG_OLDB CONFIG_B\nCONFIG_OLD_S CONFIG_S\n"
+RENAMES = "CONFIG_OLDB CONFIG_B\nCONFIG_OLD_S CONFIG_S\nCONFIG_OLD_I CONFIG_N_I\nCONFIG_OLDER_I CONFIG_N_I\n"  # N_I is not written at all while G is n
 
 TREES = {
     1: 'mainmenu "t"\nconfig B\n    bool "B"\nconfig G\n    bool "G"\n    default y\nconfig N_I\n    int "I"\n    depends on G\n    default 1\nconfig S\n    string "S"\n    default "a"\n',
@@ -30,7 +30,7 @@ TREES = {
 }
 # version 4: a hex option whose user value may be spelled with or without the 0x prefix (same number in the header)
 TREES[4] = 'mainmenu "t"\nconfig B\n    bool "B"\nconfig G\n    bool "G"\n    default y\nconfig N_I\n    int "I"\n    depends on G\n    default 1\nconfig H\n    hex "H"\n    default 0x10\n'
-ALL_NAMES = ["B", "G", "N_I", "S", "X", "H", "OLDB", "OLD_S"]
+ALL_NAMES = ["B", "G", "N_I", "S", "X", "H", "OLDB", "OLD_S", "OLD_I", "OLDER_I"]
 
 
 def user_assignments(version):
